@@ -507,3 +507,32 @@ def arg_roles_rule(ctx, rule, funcs, why):
                           f'{ast.unparse(c)[:90]}: the variable {a} is handed to parameter {p_}, while parameter {a} receives '
                           f'{got.get(a)}: the two roles are exchanged: {why}')
     return n
+
+
+def dual_stage_rule(ctx, rule, why):
+    """the composite parameters of a dual-stage amplifier are those of the cascade: the output power limit is the BOOSTER's (the
+    output stage), the flat-max gain is the sum of both stages, each stage's parameters are copied under its own prefix"""
+    from ..pattern import find, bound_by
+    repo = ctx.repo
+    f = repo.func('gnpy.tools.json_io', '_update_dual_stage')
+    pre = [nm for nm, _, _ in bound_by(f.node, 'V_d[V_e.dual_stage_model.preamp_variety]')]
+    boo = [nm for nm, _, _ in bound_by(f.node, 'V_d[V_e.dual_stage_model.booster_variety]')]
+    s_ = site(f)
+    ok = len(pre) == 1 and len(boo) == 1
+    ctx.check(rule, f'{s_} stages', ok, key(f, 'stages'), 'the two stages are not looked up as the preamp_variety / booster_variety of the dual-stage model')
+    if not ok:
+        return
+    pr, bo = pre[0], boo[0]
+    pm = find(f'V_e.p_max = {bo}.p_max', f.node)
+    ctx.check(rule, f'{s_} p_max', len(pm) == 1 and not find(f'V_e.p_max = {pr}.p_max', f.node), key(f, 'p_max'),
+              f'the output power limit of a dual-stage amplifier is not the one of its booster (output stage): {why}')
+    gf = find(f'V_e.gain_flatmax = {bo}.gain_flatmax + {pr}.gain_flatmax', f.node) + find(f'V_e.gain_flatmax = {pr}.gain_flatmax + {bo}.gain_flatmax', f.node)
+    ctx.check(rule, f'{s_} gain_flatmax', len(gf) == 1, key(f, 'gain_flatmax'), f'the flat-max gain of a dual-stage amplifier is not the sum of both stages: {why}')
+    for stage, pfx in ((pr, 'preamp_'), (bo, 'booster_')):
+        lp = [n for n in walk_no_nested(f.node) if isinstance(n, ast.For) and ast.unparse(n.iter) == f'{stage}.__dict__.items()']
+        okc = len(lp) == 1 and f"'{pfx}' +" in ast.unparse(lp[0]) and 'setattr(' in ast.unparse(lp[0])
+        ctx.check(rule, f'{s_} {pfx}* copied', okc, key(f, f'copy|{pfx}'),
+                  f'the parameters of the {pfx[:-1]} stage are not copied onto the dual-stage amplifier under the prefix {pfx}: {why}')
+    gm = [n for n in walk_no_nested(f.node) if isinstance(n, ast.If) and any(isinstance(x, ast.Raise) for x in ast.walk(n)) and
+          ast.unparse(n.test).replace(' ', '') in (f'V.gain_min<{pr}.gain_min'.replace('V', ast.unparse(n.test).split('.')[0]),)]
+    ctx.check(rule, f'{s_} gain_min check', len(gm) == 1, key(f, 'gain_min'), 'a dual-stage amplifier whose minimal gain is below its preamp minimal gain is no longer rejected')
